@@ -52,14 +52,13 @@ def unit_step_clock(twin=False):
                 kt = local(info, s, "kin_time")
                 new = fld(ex, s, "rate_sim_time", "R"); start0 = fld0(ex, s, "rate_sim_time_start", "R"); start1 = fld(ex, s, "rate_sim_time_start", "R")
                 hy = list(s.pc)
-                if B.z3_prove(hy, inc)[0] == "proved":
-                    U.discharge_eq_real(r, "%s[%d].incremental.start+=step" % (q.split("::")[-1], j), hy, start1, start0 + kt)
-                    U.discharge_eq_real(r, "%s[%d].incremental.elapsed==cumulative" % (q.split("::")[-1], j), hy, new, start0 + kt if not twin else kt)
-                elif B.z3_prove(hy, tm.not_(inc))[0] == "proved":
-                    U.discharge_eq_real(r, "%s[%d].cumulative_steps.elapsed==step" % (q.split("::")[-1], j), hy, new, kt)
-                    U.discharge_eq_real(r, "%s[%d].cumulative_steps.start_unchanged" % (q.split("::")[-1], j), hy, start1, start0)
-                else:
-                    r.add("%s[%d].case_decided" % (q.split("::")[-1], j), UNDECIDED, "z3", 0, repr(s.pc)[:200])
+                for hy, incremental in cases(hy, inc):
+                    if incremental:
+                        U.discharge_eq_real(r, "%s[%d].incremental.start+=step" % (q.split("::")[-1], j), hy, start1, start0 + kt)
+                        U.discharge_eq_real(r, "%s[%d].incremental.elapsed==cumulative" % (q.split("::")[-1], j), hy, new, start0 + kt if not twin else kt)
+                    else:
+                        U.discharge_eq_real(r, "%s[%d].cumulative_steps.elapsed==step" % (q.split("::")[-1], j), hy, new, kt)
+                        U.discharge_eq_real(r, "%s[%d].cumulative_steps.start_unchanged" % (q.split("::")[-1], j), hy, start1, start0)
     r.add("reach.clock_updates", DISCHARGED if n >= 4 else UNDECIDED, "symex", 0, "%d paths" % n, kind="vacuity")
     # end of RUN_CELLS: TOTAL_TIME (= initial_total_time + rate_sim_time) carries over
     fn = A.find_function(RC, "Phreeqc::run_as_cells")
